@@ -24,14 +24,25 @@ RetOK(e, r) ==
   CASE e.op = "get_note_mod" -> r.outcome # "ok" \/ e.ret \in r.ret
     [] e.op \in {"attach", "new_module", "attach_pattern"} -> r.outcome # "ok" \/ e.ret = r.ret
     [] OTHER -> TRUE
+TypeOK(p) ==
+  LET nm == Len(p.index)  np == Len(p.pproj) IN
+  /\ Len(p.slots) = 2 /\ Len(p.pats) = 2 /\ Len(p.parent) = nm /\ Len(p.nmod) = np
+  /\ \A P \in 1..2 : (\A i \in 1..Len(p.slots[P]) : p.slots[P][i] \in 0..nm) /\ (\A i \in 1..Len(p.pats[P]) : p.pats[P][i] \in 0..np)
+  /\ \A m \in 1..nm : p.parent[m] \in 0..2 /\ p.index[m] >= -1
+  /\ \A q \in 1..np : p.pproj[q] \in 0..2 /\ p.nmod[q] >= 0
 Norm(p) == [slots |-> p.slots, index |-> p.index, parent |-> p.parent, pats |-> p.pats, pproj |-> p.pproj, nmod |-> p.nmod]
 Step ==
   /\ l <= Len(Traces[tid].events)
   /\ LET e == Ev IN
      IF e.op = "inject" THEN
-        LET g == Coherent(Norm(e.post)) IN
+        LET g == TypeOK(e.post) /\ Coherent(Norm(e.post)) IN
         Check(g, "inject-coherent", "coherent", e.post) /\ ok' = (ok /\ g) /\ st' = Norm(e.post)
      ELSE IF e.op \notin Ops THEN Say("unknown-op", "", e.op) /\ ok' = FALSE /\ UNCHANGED st
+     ELSE IF ~TypeOK(e.post) THEN     \* e.g. a module object the harness does not know sits in a list
+        Say("post-shape", "ids in range", e.post) /\ ok' = FALSE /\ UNCHANGED st
+     ELSE IF ~Coherent(st) THEN       \* already rejected; no expectation is defined from an incoherent state
+        LET g3 == Coherent(Norm(e.post)) IN
+        Check(g3, "Coherent:" \o WhyIncoherent(Norm(e.post)), "coherent", e.post) /\ ok' = FALSE /\ st' = Norm(e.post)
      ELSE LET r == Expected(e)  got == Norm(e.post)
               g1 == e.outcome = r.outcome
               g2 == got \in r.posts
